@@ -276,6 +276,14 @@ class BuiltinsMixin(object):
                         '^': 'symmetric_difference_update'}[sym]
                 self.container_method(a, name, [b], path, node)
                 return [(path, a)]
+            if inplace and isinstance(a, (Sym, App)) and \
+                    self.is_setlike(a, path):
+                # in-place operator on a set that is not ours
+                name = {'|': 'update', '&': 'intersection_update',
+                        '-': 'difference_update',
+                        '^': 'symmetric_difference_update'}[sym]
+                self.event(path, 'mutate', a, name, (b,), node)
+                return [(path, a)]
             ca = self.concrete_iter(a, path) if self.is_set(a, path) else None
             cb_ = self.concrete_iter(b, path) if self.is_set(b, path) else None
             if ca is not None and cb_ is not None:
@@ -408,6 +416,10 @@ class BuiltinsMixin(object):
         if op in ('==', '!='):
             if isinstance(a, Const) and isinstance(b, Const):
                 return [(path, Const((a.v == b.v) == (op == '==')))]
+            ca = self.concrete_value(a, path)
+            cb = self.concrete_value(b, path)
+            if ca is not None and cb is not None:
+                return [(path, Const((ca == cb) == (op == '==')))]
             ci = self.class_of(a, path)
             if isinstance(ci, ClassInfo):
                 f = self.prog.method(ci, '__eq__')
@@ -441,6 +453,37 @@ class BuiltinsMixin(object):
             if (op, b.v) in (('==', 0), ('<', 1), ('<=', 0)):
                 return [(path, self._not(anyv, path))]
         return [(path, App('cmp', Const(op), a, b))]
+
+    def concrete_value(self, v, path):
+        """python value of a concrete container of constants (for ==)"""
+        if isinstance(v, App) and v.op == 'dictview' and \
+                isinstance(v.args[1], Obj):
+            h = path.heap[v.args[1].oid]
+            if h.kind == 'dict' and h.concrete() and all(
+                    isinstance(p.key, Const) for p in h.parts):
+                k = v.args[0].v
+                if k == 'keys':
+                    return ('keys', frozenset(p.key.v for p in h.parts))
+                if k == 'values' and all(isinstance(p.val, Const)
+                                         for p in h.parts):
+                    return ('values', tuple(p.val.v for p in h.parts))
+            return None
+        if not isinstance(v, Obj):
+            return None
+        h = path.heap[v.oid]
+        if h.kind not in ('list', 'set', 'dict') or not h.concrete():
+            return None
+        if h.kind == 'dict':
+            if all(isinstance(p.key, Const) and isinstance(p.val, Const)
+                   for p in h.parts):
+                return ('dict', frozenset((p.key.v, p.val.v)
+                                          for p in h.parts))
+            return None
+        if all(isinstance(p.val, Const) for p in h.parts):
+            if h.kind == 'set':
+                return ('set', frozenset(p.val.v for p in h.parts))
+            return ('list', tuple(p.val.v for p in h.parts))
+        return None
 
     def _not(self, v, path):
         if isinstance(v, Const):
@@ -488,6 +531,14 @@ class BuiltinsMixin(object):
             fk = self.fork_on_key(container, item, path)
             if fk is not None and (len(fk) > 1 or fk[0][1] is not None):
                 return [(q, Const(i is not None)) for (q, i) in fk]
+        if isinstance(container, Obj) and \
+                path.heap[container.oid].kind == 'inst':
+            ci = self.class_of(container, path)
+            if isinstance(ci, ClassInfo):
+                f = self.prog.method(ci, '__contains__')
+                if f is not None:
+                    return self.call_value(Bound(container, FRef(f)), [item],
+                                           [], path, node)
         if isinstance(container, Obj):
             h = path.heap[container.oid]
             if h.kind in ('list', 'set', 'dict') and h.concrete():
@@ -828,6 +879,19 @@ class BuiltinsMixin(object):
             if isinstance(base, Const) and all(isinstance(a, Const)
                                                for a in idx.args):
                 return Const(base.v[slice(*[a.v for a in idx.args])])
+            if all(isinstance(a, Const) for a in idx.args):
+                items = None
+                if isinstance(base, Obj) and \
+                        path.heap[base.oid].kind == 'list' and \
+                        path.heap[base.oid].concrete():
+                    items = [p.val for p in path.heap[base.oid].parts]
+                elif isinstance(base, Tup):
+                    items = list(base.items)
+                if items is not None:
+                    sl = items[slice(*[a.v for a in idx.args])]
+                    if isinstance(base, Tup):
+                        return Tup(sl)
+                    return self._mk_coll('list', sl, path, node)
             return App('item', base, idx)
         items = None
         if isinstance(base, Tup):
@@ -1104,6 +1168,13 @@ class BuiltinsMixin(object):
             # known lower bound only: instance of typ (or subclass)
             if vc.is_subclass_of(ci):
                 return True
+            if isinstance(vc, ClassInfo) and isinstance(ci, ExtClass):
+                # an instance of a package class is a bool/str/... only if
+                # some subclass derives from that builtin
+                for c in self.prog.classes.values():
+                    if c.is_subclass_of(vc) and ci in c.mro:
+                        return None
+                return False
             if isinstance(vc, ClassInfo) and isinstance(ci, ClassInfo):
                 # could a subclass of vc also be a subclass of ci?
                 for c in self.prog.classes.values():
